@@ -53,9 +53,13 @@ def prefix_representable(op, args):
     if len(xs) == 1:
         xs = [Fraction(1)] + xs
     acc = xs[0]
+    if not ref_num.is_exact(acc):
+        return False
     for b in xs[1:]:
         if not ref_num.representable(acc):
             return False
+        if not ref_num.is_exact(b):
+            return False          # the running quotient is inexact from here on
         if b == 0:
             return True
         acc = acc / b
@@ -133,6 +137,8 @@ def judge(ctx, op, args, step, src):
                 return None
             exp = [e for e in exp if e != "div0"]
             if not exp:
+                if op == "/" and not prefix_representable(op, args) and kind == "ok" and isinstance(obs, Real):
+                    ctx.count("clause3_inexact_prefix_accepted"); return None
                 return viol("exact division by zero did not raise DivisionByZero", clause="3")
         if errk == "Logic.DivisionByZero" and op == "/" and any(ref_num.is_exact(a) and a == 0 for a in args[1:] or args):
             return None   # inexact / exact zero: an error is as acceptable as the IEEE infinity
